@@ -20,6 +20,8 @@ inductive Kind
   | explicitPanic       -- panic(…)
   | bigFloat            -- big.NewFloat(x) (panics on NaN)
   | intDiv              -- integer / or % by a non-constant
+  | nilMapWrite         -- m[k] = v where m is a field, a parameter or a call result (not a map made in the function)
+  | nilFuncCall         -- a call through a func-typed struct field or package-level variable
   deriving DecidableEq, Repr
 
 /-- what the extractor read syntactically -/
@@ -61,6 +63,7 @@ def Why.fits : Why → Kind → Bool
   | .invariant _, _ => true
   | .libraryContract _, .typeAssert => true
   | .libraryContract _, .index => true
+  | .libraryContract _, .nilMapWrite => true
   | .libraryContract _, _ => false
   | .unreachable _, .explicitPanic => true
   | .unreachable _, _ => false
@@ -74,7 +77,8 @@ def Row.discharged (exp : List Expect) : Row → Bool
   | .site file fn kind guard count _ =>
     match guard with
     | .none => exp.any (fun e => e.covers file fn kind count)
-    | .nilCheck => kind == .derefOptScalar || kind == .derefRefValue || kind == .derefOptStruct
+    | .nilCheck => kind == .derefOptScalar || kind == .derefRefValue || kind == .derefOptStruct ||
+                   kind == .nilMapWrite || kind == .nilFuncCall
     | .lenCheck => kind == .index
     | .commaOk => kind == .typeAssert
     | .apiInput => kind == .derefOptStruct || kind == .derefRefValue
@@ -150,6 +154,31 @@ def expectations : List Expect := [
      .libraryContract "sort.Interface: sort.Sort calls Less with 0 ≤ i, j < Len()"⟩,
   ⟨"pathpattern/node.go", "SuffixList.Swap", .index, 4,
      .libraryContract "sort.Interface: sort.Sort calls Swap with 0 ≤ i, j < Len()"⟩,
+  -- writes into maps that are not made in the same function, calls through func-typed fields / package variables
+  ⟨"gorillamux/router.go", "makeServers", .nilMapWrite, 2,
+     .libraryContract "the closures are only called by FindRoute with match.Vars of a route gorilla/mux matched: mux.Route.Match allocates Vars before it sets variables"⟩,
+  ⟨"openapi3/schema.go", "Schema.visitJSONArray", .nilFuncCall, 1,
+     .invariant "sliceUniqueItemsChecker is reset to isSliceOfUniqueItems two lines above when it is nil (the test is on the variable, the call is in the next statement)"⟩,
+  ⟨"openapi3/schema.go", "Schema.visitJSONObject", .nilMapWrite, 1,
+     .invariant "value is the map[string]any the type switch of visitJSON matched: produced by encoding/json, yaml3 or a make(…) of a body / parameter decoder, never a nil map"⟩,
+  ⟨"openapi3filter/middleware.go", "Validator.Middleware", .nilFuncCall, 7,
+     .invariant "NewValidator installs errFunc and logFunc; OnErr / OnLog replace them with the caller's function (set-up time)"⟩,
+  ⟨"openapi3filter/req_resp_decoder.go", "RegisterBodyDecoder", .nilMapWrite, 1,
+     .invariant "bodyDecoders is made at package level (var bodyDecoders = make(…))"⟩,
+  ⟨"openapi3filter/req_resp_encoder.go", "RegisterBodyEncoder", .nilMapWrite, 1,
+     .invariant "bodyEncoders is a package-level map literal"⟩,
+  ⟨"openapi3filter/req_resp_decoder.go", "decodeSchemaConstructs", .nilMapWrite, 1,
+     .invariant "obj is made by its only root caller UrlencodedBodyDecoder (obj := make(map[string]any)) and passed down unchanged"⟩,
+  ⟨"openapi3filter/req_resp_decoder.go", "deepSet", .nilMapWrite, 2,
+     .invariant "m is makeObject's mobj := make(…) or a nested map deepSet itself created (comma-ok assertion before it descends)"⟩,
+  ⟨"openapi3filter/validate_request.go", "ValidateRequestBody", .nilFuncCall, 2,
+     .invariant "req.GetBody is assigned a function literal in the statement before each of the two calls"⟩,
+  ⟨"openapi3filter/validate_request.go", "validateSecurityRequirement", .nilFuncCall, 2,
+     .invariant "input.Request.GetBody is assigned a function literal in the statement before each of the two calls"⟩,
+  ⟨"openapi3filter/validation_error_encoder.go", "ValidationErrorEncoder.Encode", .nilFuncCall, 1,
+     .invariant "API input: the caller constructs ValidationErrorEncoder{Encoder: …}; a nil Encoder is a malformed value of the API's type (DESIGN §8.1)"⟩,
+  ⟨"openapi3filter/validation_handler.go", "ValidationHandler.before", .nilFuncCall, 1,
+     .invariant "ValidationHandler.Load installs DefaultErrorEncoder when the field is nil; before Load the router is nil as well (API misuse)"⟩,
   -- decoders
   ⟨"openapi3filter/req_resp_decoder.go", "MultipartBodyDecoder", .derefRefValue, 20, .refsResolved⟩,
   ⟨"openapi3filter/req_resp_decoder.go", "RegisterBodyDecoder", .explicitPanic, 2,
